@@ -1863,5 +1863,49 @@ for pid in ("C13", "C03"):
 	}
 	c.recipients = append(c.recipients, recipient)""", "the backend holds a recipient the server does not record")
 
+# ---- batches 44/45 (2026-09-28) ----
+for pid in ("C17", "C13"):
+    seed(pid.lower()+"-line-count-before-split", pid, "R-reply-format", "conn.go",
+"""	text = strings.Split(strings.Join(text, "\\n"), "\\n")
+
+	lastLineIndex := len(text) - 1""", """	lastLineIndex := len(text) - 1
+	text = strings.Split(strings.Join(text, "\\n"), "\\n")
+""", "a multi-line backend error is cut after its first line")
+seed("c10-extension-skips-hello", "C10", "R-ctls-rehello", "client.go",
+"""	if err := c.hello(); err != nil {
+		return false, \"\"
+	}
+	ext = strings.ToUpper(ext)""", """	if c.ext == nil {
+		if err := c.hello(); err != nil {
+			return false, \"\"
+		}
+	}
+	ext = strings.ToUpper(ext)""", "after STARTTLS Extension answers from the plaintext capabilities")
+for pid in ("C12", "C09"):
+    seed(pid.lower()+"-accepted-conn-wrapped", pid, "R-authallowed-def", "server.go",
+"""			err := s.handleConn(newConn(c, s))""", """			err := s.handleConn(newConn(struct{ net.Conn }{c}, s))""", "an implicit-TLS connection no longer passes for TLS")
+seed("c13-rcpt-during-transfer-by-byte-count", "C13", "R-accepted-recorded", "conn.go",
+"""	if c.bdatPipe != nil {
+		c.writeResponse(502, EnhancedCode{5, 5, 1}, "RCPT not allowed during message transfer")""", """	if c.bytesReceived > 0 {
+		c.writeResponse(502, EnhancedCode{5, 5, 1}, "RCPT not allowed during message transfer")""", "after BDAT 0 a recipient is added behind the status collector")
+seed("c07-first-chunk-by-byte-count", "C07", "R-pipe-created-once", "conn.go",
+"""	if c.bdatPipe == nil {
+		var r *io.PipeReader""", """	if c.bytesReceived == 0 {
+		var r *io.PipeReader""", "after BDAT 0 a second pipe orphans the first reader")
+seed("c09-refused-greeting-keeps-helo", "C09", "R-helo-before-newsession", "conn.go",
+"""			c.helo = \"\"
+			c.writeError(451, EnhancedCode{4, 0, 0}, err)""", """			c.writeError(451, EnhancedCode{4, 0, 0}, err)""", "AUTH after a refused greeting passes the 'introduce yourself' test")
+seed("c16-exact-limit-refused-at-entry", "C16", "R-limit-budget", "data.go",
+"""		if r.n < 0 {
+			return 0, ErrDataTooLarge
+		}
+		// Ask""", """		if r.n <= 0 {
+			return 0, ErrDataTooLarge
+		}
+		// Ask""", "a message of exactly the limit is refused when a read ends at the limit")
+seed("c04-lmtp-panic-loses-done", "C04", "R-result-on-every-exit", "conn.go",
+"""					c.server.ErrorLog.Printf("panic serving %v: %v\\n%s", c.conn.RemoteAddr(), err, stack)
+					done <- false""", """					c.server.ErrorLog.Printf("panic serving %v: %v\\n%s", c.conn.RemoteAddr(), err, stack)""", "after a backend panic the command loop waits for ever")
+
 json.dump(S, open(os.path.join(os.path.dirname(os.path.abspath(__file__)), "bank.json"), "w"), indent=1)
 print(len(S), "seeds")
